@@ -55,8 +55,8 @@ def triage(c, ops_file, impl_file, model_file, hbin, exe, budget_s):
         if not idx:
             continue
         f = idx[0]
-        sig = (ops[a].split()[-1] if ops[a].startswith("#") else "", ops[f].split()[0], " ".join(impl[f].split()[:2]),
-               impl[f] == model[f])
+        verdict = " ".join(impl[f].split()[:2]) if impl[f].startswith(("FAIL", "panic")) else impl[f].split()[0]
+        sig = (ops[a].split()[-1] if ops[a].startswith("#") else "", ops[f].split()[0], verdict, impl[f] == model[f])
         groups.setdefault(sig, []).append([o for o in ops[a:f + 1] if not o.startswith("#")])
     c.cov["failing_cases"] = sum(len(v) for v in groups.values())
     c.cov["failing_signatures"] = sorted(" / ".join(map(str, k)) for k in groups)
